@@ -11,6 +11,10 @@ PROPS = {
     'C07': dict(units=['U10', 'U11'], kani=[], level='proof',
                 scope='boolean evaluation: the whole recursive matches_node equals the documented bool/dis_max/query_string semantics (should optional beside must/filter unless minimum_should_match), for every query tree and every truth assignment of the leaves; phrase/slop position search == the slop-chain definition',
                 outside='analysis, dictionary expansion (prefix/wildcard/regex/fuzzy), candidate generation, the planner translating the JSON tree into the matcher, filters (C08)'),
+    'C16': dict(units=['U9', 'U1'], kani=[], level='other',
+                scope='panic-freedom (and termination) of cursor decoding for ANY cursor string (PaginationCursor::decode hex loop and field unpacking, hex_decode) and of the varint decoder for any bytes',
+                outside='search() as a whole: regex/wildcard compilation, scripts, aggregations, highlight (see C21), edit distance, prefix slicing, the leaf-index asserts in wand.rs',
+                level_text='Partial: proves that the cursor-decoding functions and the varint decoder cannot panic on any input; says nothing about the rest of search().'),
 }
 
 COMMON_TRUSTED = [
